@@ -132,19 +132,30 @@ def cond (n : Nat) : Cond := Fin.ofNat 15 n
 /-- NOT (J XOR S) -/
 def ibit (j s : Nat) : Nat := if j = s then 1 else 0
 
-/-- the 16-bit encodings -/
-def table16 : List Row := [
-  -- shift (immediate), add, subtract, move, compare                                      A5.2.1
+/-- first halfword `00000…` -/
+def g00 : List Row := [
   -- MOVS Rd,Rm (T2)
   { pat := "0000000000mmmddd", n := 16, fixed := [(6, 10, 0b0000000000)], fields := [('m', [(3, 3)]), ('d', [(0, 3)])],
     ins := fun f => .mov true (r (f 'd')) (rg (f 'm')) },
   -- LSLS Rd,Rm,#imm5
   { pat := "00000iiiiimmmddd", n := 16, fixed := [(11, 5, 0b00000)], fields := [('i', [(6, 5)]), ('m', [(3, 3)]), ('d', [(0, 3)])],
-    ins := fun f => .lsl (r (f 'd')) (r (f 'm')) (im (f 'i')) },
+    ins := fun f => .lsl (r (f 'd')) (r (f 'm')) (im (f 'i')) }
+]
+
+/-- first halfword `00001…` -/
+def g01 : List Row := [
   { pat := "00001iiiiimmmddd", n := 16, fixed := [(11, 5, 0b00001)], fields := [('i', [(6, 5)]), ('m', [(3, 3)]), ('d', [(0, 3)])],
-    ins := fun f => .lsr (r (f 'd')) (r (f 'm')) (im (sh32 (f 'i'))) },
+    ins := fun f => .lsr (r (f 'd')) (r (f 'm')) (im (sh32 (f 'i'))) }
+]
+
+/-- first halfword `00010…` -/
+def g02 : List Row := [
   { pat := "00010iiiiimmmddd", n := 16, fixed := [(11, 5, 0b00010)], fields := [('i', [(6, 5)]), ('m', [(3, 3)]), ('d', [(0, 3)])],
-    ins := fun f => .asr (r (f 'd')) (r (f 'm')) (im (sh32 (f 'i'))) },
+    ins := fun f => .asr (r (f 'd')) (r (f 'm')) (im (sh32 (f 'i'))) }
+]
+
+/-- first halfword `00011…` -/
+def g03 : List Row := [
   -- ADDS Rd,Rn,Rm (T1)
   { pat := "0001100mmmnnnddd", n := 16, fixed := [(9, 7, 0b0001100)], fields := [('m', [(6, 3)]), ('n', [(3, 3)]), ('d', [(0, 3)])],
     ins := fun f => .add true (r (f 'd')) (r (f 'n')) (rg (f 'm')) },
@@ -154,19 +165,38 @@ def table16 : List Row := [
   { pat := "0001110iiinnnddd", n := 16, fixed := [(9, 7, 0b0001110)], fields := [('i', [(6, 3)]), ('n', [(3, 3)]), ('d', [(0, 3)])],
     ins := fun f => .add true (r (f 'd')) (r (f 'n')) (im (f 'i')) },
   { pat := "0001111iiinnnddd", n := 16, fixed := [(9, 7, 0b0001111)], fields := [('i', [(6, 3)]), ('n', [(3, 3)]), ('d', [(0, 3)])],
-    ins := fun f => .sub true (r (f 'd')) (r (f 'n')) (im (f 'i')) },
+    ins := fun f => .sub true (r (f 'd')) (r (f 'n')) (im (f 'i')) }
+]
+
+/-- first halfword `00100…` -/
+def g04 : List Row := [
   -- MOVS Rd,#imm8
   { pat := "00100dddiiiiiiii", n := 16, fixed := [(11, 5, 0b00100)], fields := [('d', [(8, 3)]), ('i', [(0, 8)])],
-    ins := fun f => .mov true (r (f 'd')) (im (f 'i')) },
+    ins := fun f => .mov true (r (f 'd')) (im (f 'i')) }
+]
+
+/-- first halfword `00101…` -/
+def g05 : List Row := [
   -- CMP Rn,#imm8
   { pat := "00101nnniiiiiiii", n := 16, fixed := [(11, 5, 0b00101)], fields := [('n', [(8, 3)]), ('i', [(0, 8)])],
-    ins := fun f => .cmp (r (f 'n')) (im (f 'i')) },
+    ins := fun f => .cmp (r (f 'n')) (im (f 'i')) }
+]
+
+/-- first halfword `00110…` -/
+def g06 : List Row := [
   -- ADDS Rdn,#imm8 (T2)
   { pat := "00110dddiiiiiiii", n := 16, fixed := [(11, 5, 0b00110)], fields := [('d', [(8, 3)]), ('i', [(0, 8)])],
-    ins := fun f => .add true (r (f 'd')) (r (f 'd')) (im (f 'i')) },
+    ins := fun f => .add true (r (f 'd')) (r (f 'd')) (im (f 'i')) }
+]
+
+/-- first halfword `00111…` -/
+def g07 : List Row := [
   { pat := "00111dddiiiiiiii", n := 16, fixed := [(11, 5, 0b00111)], fields := [('d', [(8, 3)]), ('i', [(0, 8)])],
-    ins := fun f => .sub true (r (f 'd')) (r (f 'd')) (im (f 'i')) },
-  -- data processing                                                                       A5.2.2
+    ins := fun f => .sub true (r (f 'd')) (r (f 'd')) (im (f 'i')) }
+]
+
+/-- first halfword `01000…` -/
+def g08 : List Row := [
   { pat := "0100000000mmmddd", n := 16, fixed := [(6, 10, 0b0100000000)], fields := [('m', [(3, 3)]), ('d', [(0, 3)])],
     ins := fun f => .and (r (f 'd')) (r (f 'm')) },
   { pat := "0100000001mmmddd", n := 16, fixed := [(6, 10, 0b0100000001)], fields := [('m', [(3, 3)]), ('d', [(0, 3)])],
@@ -202,7 +232,6 @@ def table16 : List Row := [
     ins := fun f => .bic (r (f 'd')) (r (f 'm')) },
   { pat := "0100001111mmmddd", n := 16, fixed := [(6, 10, 0b0100001111)], fields := [('m', [(3, 3)]), ('d', [(0, 3)])],
     ins := fun f => .mvn (r (f 'd')) (r (f 'm')) },
-  -- special data instructions and branch and exchange                                     A5.2.3
   -- ADD Rdn,Rm (T2), incl. SP forms
   { pat := "01000100dmmmmddd", n := 16, fixed := [(8, 8, 0b01000100)], fields := [('d', [(7, 1), (0, 3)]), ('m', [(3, 4)])],
     ins := fun f => .add false (r (f 'd')) (r (f 'd')) (rg (f 'm')),
@@ -219,11 +248,17 @@ def table16 : List Row := [
     unpred := fun f => f 'm' == 15 },
   { pat := "010001111mmmm000", n := 16, fixed := [(7, 9, 0b010001111), (0, 3, 0b000)], fields := [('m', [(3, 4)])],
     ins := fun f => .blx (r (f 'm')),
-    unpred := fun f => f 'm' == 15 },
-  -- load from literal pool                                                                A6.7.27
+    unpred := fun f => f 'm' == 15 }
+]
+
+/-- first halfword `01001…` -/
+def g09 : List Row := [
   { pat := "01001tttiiiiiiii", n := 16, fixed := [(11, 5, 0b01001)], fields := [('t', [(8, 3)]), ('i', [(0, 8)])],
-    ins := fun f => .ldr (r (f 't')) Reg.pc (im (f 'i' * 4)) },
-  -- load/store single data item                                                           A5.2.4
+    ins := fun f => .ldr (r (f 't')) Reg.pc (im (f 'i' * 4)) }
+]
+
+/-- first halfword `01010…` -/
+def g10 : List Row := [
   { pat := "0101000mmmnnnttt", n := 16, fixed := [(9, 7, 0b0101000)], fields := [('m', [(6, 3)]), ('n', [(3, 3)]), ('t', [(0, 3)])],
     ins := fun f => .str (r (f 't')) (r (f 'n')) (rg (f 'm')) },
   { pat := "0101001mmmnnnttt", n := 16, fixed := [(9, 7, 0b0101001)], fields := [('m', [(6, 3)]), ('n', [(3, 3)]), ('t', [(0, 3)])],
@@ -231,7 +266,11 @@ def table16 : List Row := [
   { pat := "0101010mmmnnnttt", n := 16, fixed := [(9, 7, 0b0101010)], fields := [('m', [(6, 3)]), ('n', [(3, 3)]), ('t', [(0, 3)])],
     ins := fun f => .strb (r (f 't')) (r (f 'n')) (rg (f 'm')) },
   { pat := "0101011mmmnnnttt", n := 16, fixed := [(9, 7, 0b0101011)], fields := [('m', [(6, 3)]), ('n', [(3, 3)]), ('t', [(0, 3)])],
-    ins := fun f => .ldrsb (r (f 't')) (r (f 'n')) (r (f 'm')) },
+    ins := fun f => .ldrsb (r (f 't')) (r (f 'n')) (r (f 'm')) }
+]
+
+/-- first halfword `01011…` -/
+def g11 : List Row := [
   { pat := "0101100mmmnnnttt", n := 16, fixed := [(9, 7, 0b0101100)], fields := [('m', [(6, 3)]), ('n', [(3, 3)]), ('t', [(0, 3)])],
     ins := fun f => .ldr (r (f 't')) (r (f 'n')) (rg (f 'm')) },
   { pat := "0101101mmmnnnttt", n := 16, fixed := [(9, 7, 0b0101101)], fields := [('m', [(6, 3)]), ('n', [(3, 3)]), ('t', [(0, 3)])],
@@ -239,29 +278,71 @@ def table16 : List Row := [
   { pat := "0101110mmmnnnttt", n := 16, fixed := [(9, 7, 0b0101110)], fields := [('m', [(6, 3)]), ('n', [(3, 3)]), ('t', [(0, 3)])],
     ins := fun f => .ldrb (r (f 't')) (r (f 'n')) (rg (f 'm')) },
   { pat := "0101111mmmnnnttt", n := 16, fixed := [(9, 7, 0b0101111)], fields := [('m', [(6, 3)]), ('n', [(3, 3)]), ('t', [(0, 3)])],
-    ins := fun f => .ldrsh (r (f 't')) (r (f 'n')) (r (f 'm')) },
+    ins := fun f => .ldrsh (r (f 't')) (r (f 'n')) (r (f 'm')) }
+]
+
+/-- first halfword `01100…` -/
+def g12 : List Row := [
   { pat := "01100iiiiinnnttt", n := 16, fixed := [(11, 5, 0b01100)], fields := [('i', [(6, 5)]), ('n', [(3, 3)]), ('t', [(0, 3)])],
-    ins := fun f => .str (r (f 't')) (r (f 'n')) (im (f 'i' * 4)) },
+    ins := fun f => .str (r (f 't')) (r (f 'n')) (im (f 'i' * 4)) }
+]
+
+/-- first halfword `01101…` -/
+def g13 : List Row := [
   { pat := "01101iiiiinnnttt", n := 16, fixed := [(11, 5, 0b01101)], fields := [('i', [(6, 5)]), ('n', [(3, 3)]), ('t', [(0, 3)])],
-    ins := fun f => .ldr (r (f 't')) (r (f 'n')) (im (f 'i' * 4)) },
+    ins := fun f => .ldr (r (f 't')) (r (f 'n')) (im (f 'i' * 4)) }
+]
+
+/-- first halfword `01110…` -/
+def g14 : List Row := [
   { pat := "01110iiiiinnnttt", n := 16, fixed := [(11, 5, 0b01110)], fields := [('i', [(6, 5)]), ('n', [(3, 3)]), ('t', [(0, 3)])],
-    ins := fun f => .strb (r (f 't')) (r (f 'n')) (im (f 'i')) },
+    ins := fun f => .strb (r (f 't')) (r (f 'n')) (im (f 'i')) }
+]
+
+/-- first halfword `01111…` -/
+def g15 : List Row := [
   { pat := "01111iiiiinnnttt", n := 16, fixed := [(11, 5, 0b01111)], fields := [('i', [(6, 5)]), ('n', [(3, 3)]), ('t', [(0, 3)])],
-    ins := fun f => .ldrb (r (f 't')) (r (f 'n')) (im (f 'i')) },
+    ins := fun f => .ldrb (r (f 't')) (r (f 'n')) (im (f 'i')) }
+]
+
+/-- first halfword `10000…` -/
+def g16 : List Row := [
   { pat := "10000iiiiinnnttt", n := 16, fixed := [(11, 5, 0b10000)], fields := [('i', [(6, 5)]), ('n', [(3, 3)]), ('t', [(0, 3)])],
-    ins := fun f => .strh (r (f 't')) (r (f 'n')) (im (f 'i' * 2)) },
+    ins := fun f => .strh (r (f 't')) (r (f 'n')) (im (f 'i' * 2)) }
+]
+
+/-- first halfword `10001…` -/
+def g17 : List Row := [
   { pat := "10001iiiiinnnttt", n := 16, fixed := [(11, 5, 0b10001)], fields := [('i', [(6, 5)]), ('n', [(3, 3)]), ('t', [(0, 3)])],
-    ins := fun f => .ldrh (r (f 't')) (r (f 'n')) (im (f 'i' * 2)) },
+    ins := fun f => .ldrh (r (f 't')) (r (f 'n')) (im (f 'i' * 2)) }
+]
+
+/-- first halfword `10010…` -/
+def g18 : List Row := [
   { pat := "10010tttiiiiiiii", n := 16, fixed := [(11, 5, 0b10010)], fields := [('t', [(8, 3)]), ('i', [(0, 8)])],
-    ins := fun f => .str (r (f 't')) Reg.sp (im (f 'i' * 4)) },
+    ins := fun f => .str (r (f 't')) Reg.sp (im (f 'i' * 4)) }
+]
+
+/-- first halfword `10011…` -/
+def g19 : List Row := [
   { pat := "10011tttiiiiiiii", n := 16, fixed := [(11, 5, 0b10011)], fields := [('t', [(8, 3)]), ('i', [(0, 8)])],
-    ins := fun f => .ldr (r (f 't')) Reg.sp (im (f 'i' * 4)) },
-  -- PC-relative and SP-relative address                                                   A6.7.6, A6.7.4
+    ins := fun f => .ldr (r (f 't')) Reg.sp (im (f 'i' * 4)) }
+]
+
+/-- first halfword `10100…` -/
+def g20 : List Row := [
   { pat := "10100dddiiiiiiii", n := 16, fixed := [(11, 5, 0b10100)], fields := [('d', [(8, 3)]), ('i', [(0, 8)])],
-    ins := fun f => .adr (r (f 'd')) ((f 'i' * 4 : Nat) : Int) },
+    ins := fun f => .adr (r (f 'd')) ((f 'i' * 4 : Nat) : Int) }
+]
+
+/-- first halfword `10101…` -/
+def g21 : List Row := [
   { pat := "10101dddiiiiiiii", n := 16, fixed := [(11, 5, 0b10101)], fields := [('d', [(8, 3)]), ('i', [(0, 8)])],
-    ins := fun f => .add false (r (f 'd')) Reg.sp (im (f 'i' * 4)) },
-  -- miscellaneous 16-bit instructions                                                     A5.2.5
+    ins := fun f => .add false (r (f 'd')) Reg.sp (im (f 'i' * 4)) }
+]
+
+/-- first halfword `10110…` -/
+def g22 : List Row := [
   { pat := "101100000iiiiiii", n := 16, fixed := [(7, 9, 0b101100000)], fields := [('i', [(0, 7)])],
     ins := fun f => .add false Reg.sp Reg.sp (im (f 'i' * 4)) },
   { pat := "101100001iiiiiii", n := 16, fixed := [(7, 9, 0b101100001)], fields := [('i', [(0, 7)])],
@@ -280,7 +361,11 @@ def table16 : List Row := [
     unpred := fun f => f 'm' * 16384 + f 'r' == 0 },
   -- CPSIE i: im = 0, CPSID i: im = 1
   { pat := "10110110011i0010", n := 16, fixed := [(5, 11, 0b10110110011), (0, 4, 0b0010)], fields := [('i', [(4, 1)])],
-    ins := fun f => .cps (f 'i' == 0) },
+    ins := fun f => .cps (f 'i' == 0) }
+]
+
+/-- first halfword `10111…` -/
+def g23 : List Row := [
   { pat := "1011101000mmmddd", n := 16, fixed := [(6, 10, 0b1011101000)], fields := [('m', [(3, 3)]), ('d', [(0, 3)])],
     ins := fun f => .rev (r (f 'd')) (r (f 'm')) },
   { pat := "1011101001mmmddd", n := 16, fixed := [(6, 10, 0b1011101001)], fields := [('m', [(3, 3)]), ('d', [(0, 3)])],
@@ -302,24 +387,42 @@ def table16 : List Row := [
   { pat := "1011111100110000", n := 16, fixed := [(0, 16, 0b1011111100110000)], fields := [],
     ins := fun _ => .wfi },
   { pat := "1011111101000000", n := 16, fixed := [(0, 16, 0b1011111101000000)], fields := [],
-    ins := fun _ => .sev },
-  -- load/store multiple                                                                   A6.7.25, A6.7.58
+    ins := fun _ => .sev }
+]
+
+/-- first halfword `11000…` -/
+def g24 : List Row := [
   { pat := "11000nnnrrrrrrrr", n := 16, fixed := [(11, 5, 0b11000)], fields := [('n', [(8, 3)]), ('r', [(0, 8)])],
-    ins := fun f => .stm (r (f 'n')) (set (f 'r')) },
+    ins := fun f => .stm (r (f 'n')) (set (f 'r')) }
+]
+
+/-- first halfword `11001…` -/
+def g25 : List Row := [
   { pat := "11001nnnrrrrrrrr", n := 16, fixed := [(11, 5, 0b11001)], fields := [('n', [(8, 3)]), ('r', [(0, 8)])],
-    ins := fun f => .ldm (r (f 'n')) (set (f 'r')) },
-  -- conditional branch, permanently undefined, supervisor call                            A5.2.6
+    ins := fun f => .ldm (r (f 'n')) (set (f 'r')) }
+]
+
+/-- first halfword `1101…` (UDF and SVC before the conditional branch) -/
+def g26 : List Row := [
   { pat := "11011110iiiiiiii", n := 16, fixed := [(8, 8, 0b11011110)], fields := [('i', [(0, 8)])],
     ins := fun f => .udf (f 'i' : Nat) },
   { pat := "11011111iiiiiiii", n := 16, fixed := [(8, 8, 0b11011111)], fields := [('i', [(0, 8)])],
     ins := fun f => .svc (f 'i' : Nat) },
   -- B<c> (T1); cond 1110/1111 are the rows above
   { pat := "1101cccciiiiiiii", n := 16, fixed := [(12, 4, 0b1101)], fields := [('c', [(8, 4)]), ('i', [(0, 8)])],
-    ins := fun f => .b (cond (f 'c')) (sx 9 (f 'i' * 2)) },
+    ins := fun f => .b (cond (f 'c')) (sx 9 (f 'i' * 2)) }
+]
+
+/-- first halfword `11100…` -/
+def g28 : List Row := [
   -- B (T2)
   { pat := "11100iiiiiiiiiii", n := 16, fixed := [(11, 5, 0b11100)], fields := [('i', [(0, 11)])],
     ins := fun f => .b Cond.always (sx 12 (f 'i' * 2)) }
 ]
+
+/-- the 16-bit encodings, grouped by the five leading bits -/
+def table16 : List Row :=
+  [g00, g01, g02, g03, g04, g05, g06, g07, g08, g09, g10, g11, g12, g13, g14, g15, g16, g17, g18, g19, g20, g21, g22, g23, g24, g25, g26, g28].flatten
 
 /-- the 32-bit encodings -/
 def table32 : List Row := [
